@@ -81,6 +81,7 @@ structure St where
   nestedStarts : Nat
   tcTrue : Nat         -- try_complete calls that returned true
   startAfterHook : Bool  -- history: the nested start() was called although the stop() hook had run
+  hookLate : Bool      -- history: a call of the stop() hook was decided on a state_ value with `completed` set
   bad : Nat            -- 0 ok; 1 op memory touched after destruction; 2 stop() hook entered / running on a
                        -- destroyed op; 3 stop() hook entered after the receiver was completed; 4 store to the
                        -- dead stack local; 6 callback destructed twice /
@@ -92,7 +93,7 @@ def init (cfg : Config) : St :=
   { stopped := false, started := false, completed := false, syncPtr := false, syncFlag := false,
     localDead := false, cleanupSet := false, srcStop := false, cbSt := 0, cbRunner := 0,
     pending := false, aGo := 0, startedPlain := false, freed := false, completions := 0, doneWins := 0,
-    hookRuns := 0, nestedStarts := 0, tcTrue := 0, startAfterHook := false, bad := 0,
+    hookRuns := 0, nestedStarts := 0, tcTrue := 0, startAfterHook := false, hookLate := false, bad := 0,
     thrs := cfg.roles.map (fun _ => ⟨0, 0, []⟩) }
 
 def getThr (s : St) (t : Nat) : Thr := s.thrs.getD t ⟨0, 0, []⟩
@@ -149,6 +150,12 @@ def destroyOp (cfg : Config) (s : St) : St :=
   let s1 := if cfg.destroy && s.completions = 1 then { s with freed := true } else s
   { s1 with aGo := if s.aGo = 0 then 2 else s.aGo }
 
+/-- `nested_op().stop()` is called: push the hook frame (continuing at `pc` afterwards); records whether
+    the state_ value the caller has just observed (`s`, the pre-state of the deciding atomic operation)
+    already had the `completed` bit -/
+def callHook (s s1 : St) (t pc : Nat) : St :=
+  push (goto { s1 with hookLate := s1.hookLate || s.completed } t pc) t ⟨2, 0⟩
+
 /-- One step of thread `t`; `none` = disabled (spinning, blocked or finished). -/
 def stepThr (cfg : Config) (s : St) (t : Nat) : Option (Lbl × St) :=
   let th := getThr s t
@@ -182,7 +189,7 @@ def stepThr (cfg : Config) (s : St) (t : Nat) : Option (Lbl × St) :=
         some (tau t, push (goto { (touch s) with cbSt := 4, cleanupSet := true } t nxt) t ⟨3, 0⟩)   -- inline execution
       else some (tau t, goto { (touch s) with cbSt := 1, cleanupSet := true } t nxt)
     | 0, 2 =>  -- StopsEarly: state_.load() & stopped
-      if s.stopped then some (tau t, push (goto (touch s) t 9) t ⟨2, 0⟩)
+      if s.stopped then some (tau t, callHook s (touch s) t 9)
       else some (tau t, goto (touch s) t 3)
     | 0, 3 =>  -- sync_complete_ = &sync_complete; unifex::start(nested_op())
       let s1 := { (touch s) with syncPtr := true, startedPlain := true, nestedStarts := s.nestedStarts + 1 }
@@ -196,7 +203,7 @@ def stepThr (cfg : Config) (s : St) (t : Nat) : Option (Lbl × St) :=
       if s.syncFlag then some (tau t, goto s t 9) else some (tau t, goto s t 6)
     | 0, 6 =>  -- state_.fetch_or(started)
       let s1 := { (touch s) with started := true }
-      if s.stopped && !s.completed && !s.started then some (tau t, push (goto s1 t 9) t ⟨2, 0⟩)   -- nested_op().stop()
+      if s.stopped && !s.completed && !s.started then some (tau t, callHook s s1 t 9)   -- nested_op().stop()
       else if s.completed then some (tau t, goto s1 t 8)
       else some (tau t, goto s1 t 9)
     | 0, 8 => if s.syncFlag then some (tau t, goto s t 9) else none   -- spin on the local flag
@@ -238,7 +245,7 @@ def stepThr (cfg : Config) (s : St) (t : Nat) : Option (Lbl × St) :=
     -- ---------------- stop_callback::operator()
     | 3, 0 =>  -- state_.fetch_or(stopped)
       let s1 := { (touch s) with stopped := true }
-      if s.started && !s.stopped && !s.completed then some (tau t, push (goto s1 t 1) t ⟨2, 0⟩)
+      if s.started && !s.stopped && !s.completed then some (tau t, callHook s s1 t 1)
       else some (tau t, goto s1 t 1)
     | 3, 1 => some (tau t, pop s t)
     -- ---------------- completer main
@@ -271,13 +278,15 @@ def final (cfg : Config) (s : St) : Bool :=
     * the receiver is completed at most once, `try_complete` returns true at most once;
     * the stop() hook runs at most once, the nested start() at most once, and start() is never called
       after the hook (skip-start mode: the hook runs INSTEAD of start());
+    * every call of the hook is decided on a `state_` value without the `completed` bit: the hook is
+      never called for an operation whose completion try_complete() has already claimed;
     * the receiver is completed with done only through the hook;
     * no deadlock: a state without enabled step is final (covers the spin on the stack-local flag and
       the wait for a running stop callback inside `cleanup_`);
     * at the end: completed exactly once, and the op state destroyed. -/
 def core (cfg : Config) (s : St) : Bool :=
   s.completions ≤ 1 && s.tcTrue ≤ 1 && s.hookRuns ≤ 1 && s.nestedStarts ≤ 1 &&
-  !s.startAfterHook &&
+  !s.startAfterHook && !s.hookLate &&
   (s.doneWins = 0 || s.hookRuns = 1) &&
   ((sys cfg).next s |>.isEmpty |> fun dead => !dead || final cfg s) &&
   (!final cfg s || (s.completions = 1 && s.freed))
@@ -296,7 +305,7 @@ def encThr (t : Thr) : List Nat := t.ip :: t.ret :: t.stack.length :: t.stack.fl
 def encSt (s : St) : List Nat :=
   [b2n s.stopped, b2n s.started, b2n s.completed, b2n s.syncPtr, b2n s.syncFlag, b2n s.localDead,
    b2n s.cleanupSet, b2n s.srcStop, s.cbSt, s.cbRunner, b2n s.pending, s.aGo, b2n s.startedPlain,
-   b2n s.freed, s.completions, s.doneWins, s.hookRuns, s.nestedStarts, s.tcTrue, b2n s.startAfterHook, s.bad, s.thrs.length] ++
+   b2n s.freed, s.completions, s.doneWins, s.hookRuns, s.nestedStarts, s.tcTrue, b2n s.startAfterHook, b2n s.hookLate, s.bad, s.thrs.length] ++
   s.thrs.flatMap encThr
 
 def decFrames : Nat → List Nat → List Frame × List Nat
@@ -315,10 +324,10 @@ def decThrs : Nat → List Nat → List Thr × List Nat
 def decSt (l : List Nat) : St :=
   match l with
   | a0 :: a1 :: a2 :: a3 :: a4 :: a5 :: a6 :: a7 :: a8 :: a9 :: a10 :: a11 :: a12 :: a13 :: a14 :: a15 ::
-      a16 :: a17 :: a18 :: a19 :: a20 :: n :: r =>
+      a16 :: a17 :: a18 :: a19 :: hl :: a20 :: n :: r =>
     let (ths, _) := decThrs n r
     ⟨a0 == 1, a1 == 1, a2 == 1, a3 == 1, a4 == 1, a5 == 1, a6 == 1, a7 == 1, a8, a9, a10 == 1, a11,
-     a12 == 1, a13 == 1, a14, a15, a16, a17, a18, a19 == 1, a20, ths⟩
+     a12 == 1, a13 == 1, a14, a15, a16, a17, a18, a19 == 1, hl == 1, a20, ths⟩
   | _ => { init ⟨false, false, false, false, []⟩ with bad := 99 }
 
 def coded : Coded St :=
